@@ -80,4 +80,13 @@ def librt_path(repo: str = REPO) -> str:
         if p.returncode != 0:
             raise ToolFailure("building librt.internal from the repo's C sources failed:\n" + (p.stdout + p.stderr)[-3000:])
         open(marker, "w").write("ok")
+        # keep the cache small: the four most recent builds (other trees under check, e.g. mutants)
+        builds = sorted((d for d in os.listdir(CACHE) if d.startswith("librt-")),
+                        key=lambda d: os.path.getmtime(os.path.join(CACHE, d)))
+        for d in builds[:-4]:
+            shutil.rmtree(os.path.join(CACHE, d), ignore_errors=True)
+            try:
+                os.remove(os.path.join(CACHE, d[len("librt-"):] + ".lock"))
+            except OSError:
+                pass
     return build_dir
